@@ -244,6 +244,8 @@ func checkC01(r *core.Run) {
 	c01OpClass(r, p, ev)
 	c01StackEffect(r, p, ev)
 	c01Rules(r, p, ev)
+	// the execution data handed to tapscript signature checks: the leaf hash is the BIP341 one and stays intact
+	c02LeafHash(r, p, "R-C01-rules")
 	c01Total(r, p, ev)
 }
 
